@@ -69,7 +69,8 @@ MODES_THEOREM_NAMES = [
     "C02_mode_in_frameset", "C02_mode_after_frameset", "C02_mode_after_after_body", "C02_mode_after_after_frameset",
     "C02_foreign", "C02_foreign_chars", "C02_doctype_initial", "C02_rules_in_body", "C02_rules_in_head", "C02_dispatcher",
     "DocAgrees.std", "DocAgrees.unique", "C02_model_eq_spec_modes_completed", "C02_model_eq_spec_modes",
-    "C02_model_eq_spec_modes_fragment_completed", "C02_model_eq_spec_modes_fragment", "respects2_of_B",
+    "C02_model_eq_spec_modes_fragment_completed", "C02_model_eq_spec_modes_fragment", "DocAgrees.strict",
+    "C02_model_eq_spec_modes_strict", "C02_model_eq_spec_modes_fragment_strict", "C02_cell_assert_never_fails", "respects2_of_B",
     "respects2_frag_of_B"]
 THEOREMS = ["H5V.Props.C02." + t for t in _TABLE_THEOREMS + SPEC_THEOREM_NAMES + ALGO_THEOREM_NAMES + MODES_THEOREM_NAMES]
 
@@ -722,6 +723,9 @@ def gen_cases(tier, rng):
     # around the four defects repaired after the independent-spec proof (F38-F41): DOCTYPE inside table text, characters
     # under a template current node in table modes, end tags in foreign-context fragments, select-context fragments
     for t, c in tb.fix_families():
+        texts.append((t, c))
+    # size only: stacks / lists / loop counters past 2^8 entries
+    for t, c in tb.deep_family(tier):
         texts.append((t, c))
     # fragment parsing of text-only contexts: their own end tag is ordinary text there
     for cx in ("title", "textarea", "style", "xmp", "iframe", "noembed", "noframes", "script", "noscript", "plaintext"):
